@@ -5,6 +5,7 @@ import (
 	"fmt"
 	"math/rand"
 	"sort"
+	"strings"
 	"sync"
 	"time"
 
@@ -63,7 +64,7 @@ func c02Cases(tier string, seed int64) []fw.Case {
 		name string
 		t    int // partition duration in ms (family fetch-blocked)
 	}
-	fams := []fam{{"lost-exchange-rejoin", 0}, {"lost-exchange-rejoin", 0}, {"lost-exchange-rejoin", 0}, {"receiver-restart-before-merge", 0}, {"receiver-restart-before-merge", 0}, {"fetch-blocked-by-partition", 0}, {"fetch-blocked-by-partition", 1000}, {"fetch-blocked-by-partition", 12000}}
+	fams := []fam{{"lost-exchange-rejoin", 0}, {"lost-exchange-rejoin", 0}, {"lost-exchange-rejoin", 0}, {"receiver-restart-before-merge", 0}, {"receiver-restart-before-merge", 0}, {"fetch-blocked-by-partition", 0}, {"fetch-blocked-by-partition", 1000}, {"fetch-blocked-by-partition", 12000}, {"many-failed-fetches", 0}}
 	reps := 1
 	if tier == "thorough" {
 		reps = 6
@@ -155,6 +156,27 @@ func c02Family(c fw.Case) fw.Verdict {
 		r.Restarts++
 		r.settle()
 		r.Lost += w.DropAll()
+	case "many-failed-fetches":
+		// B hears of 40 writes of A one by one while none of the blocks can be fetched (announcements
+		// arrive, block requests fail): 40 failed fetches on one open store, more than it has fetch slots
+		w.SetGate(func(ctx context.Context, to, from *sim.Peer, _ cid.Cid) error {
+			if to != B {
+				return nil
+			}
+			return fmt.Errorf("sim: injected fetch failure")
+		})
+		for j := 0; j < 40 && !r.watchdog; j++ {
+			// the announcement of the first write is lost: the parent of the announced head is not local
+			_ = r.Write(0, r.GenOp(rng))
+			r.settle()
+			r.Lost += w.DropAll()
+			_ = r.Write(0, r.GenOp(rng))
+			r.settle()
+			w.DeliverAll()
+			r.settle()
+		}
+		w.SetGate(nil)
+		r.FaultyFetches += 40
 	case "fetch-blocked-by-partition":
 		// B learns A's heads, but the partition starts before it could fetch the blocks and lasts T
 		writeK(0)
@@ -185,7 +207,21 @@ func c02Family(c fw.Case) fw.Verdict {
 	}
 	if r.failed == nil {
 		r.logf("final phase: heal+bounce all links, deliver everything")
-		if r.Converge() {
+		converged := !r.watchdog && r.Converge()
+		if !converged && w.Wedged(confirmWindow()) {
+			// rest is never reached and nothing is running that could reach it
+			var sts []string
+			for i := range r.Peers {
+				if st := r.store(i); st != nil {
+					if vs, ok := replState(st); ok {
+						sts = append(sts, fmt.Sprintf("p%d %s", i, vs))
+					}
+				}
+			}
+			r.watchdog = false
+			r.fail("wedged-at-rest/"+famName, fmt.Sprintf("after %s and the final phase the replicas never come to rest although nothing runs, no fetch is parked and nothing is in flight: pending %v; replicators: %s", famName, e.H.Detail(), strings.Join(sts, "; ")))
+		}
+		if converged {
 			want := append([]string{}, r.Acked...)
 			sort.Strings(want)
 			ok := func() (bool, string) {
@@ -269,7 +305,22 @@ func c02Run(c fw.Case) fw.Verdict {
 			}
 		}
 		r.logf("final phase: heal+bounce all links, deliver everything")
-		if r.Converge() {
+		w, famName := e.W, "random-history"
+		converged := r.Converge()
+		if !converged && w.Wedged(confirmWindow()) {
+			// rest is never reached and nothing is running that could reach it
+			var sts []string
+			for i := range r.Peers {
+				if st := r.store(i); st != nil {
+					if vs, ok := replState(st); ok {
+						sts = append(sts, fmt.Sprintf("p%d %s", i, vs))
+					}
+				}
+			}
+			r.watchdog = false
+			r.fail("wedged-at-rest/"+famName, fmt.Sprintf("after %s and the final phase the replicas never come to rest although nothing runs, no fetch is parked and nothing is in flight: pending %v; replicators: %s", famName, e.H.Detail(), strings.Join(sts, "; ")))
+		}
+		if converged {
 			want := append([]string{}, r.Acked...)
 			sort.Strings(want)
 			ok := func() (bool, string) {
